@@ -25,7 +25,7 @@ TOWERS = [
 ]
 
 
-def make_config(nt, ns, use_cache=False, repeated_met=False, levels=None, nx=8, sweep=False):
+def make_config(nt, ns, use_cache=False, repeated_met=False, levels=None, nx=8, sweep=False, timestamps=True):
     from bldfm.config_parser import parse_config_dict
 
     ustar = [0.30 + 0.07 * i for i in range(ns)]
@@ -41,7 +41,7 @@ def make_config(nt, ns, use_cache=False, repeated_met=False, levels=None, nx=8, 
     raw = {
         "domain": dom,
         "towers": [dict(t) for t in TOWERS[:nt]],
-        "met": {"ustar": ustar, "mol": -120.0, "wind_speed": 3.5, "wind_dir": wd, "timestamps": ["t%02d" % i for i in range(ns)]},
+        "met": dict({"ustar": ustar, "mol": -120.0, "wind_speed": 3.5, "wind_dir": wd}, **({"timestamps": ["t%02d" % i for i in range(ns)]} if timestamps else {})),
         "solver": {"footprint": True, "precision": "double", "closure": "MOST"},
         "parallel": {"use_cache": bool(use_cache)},
     }
@@ -318,10 +318,10 @@ def main():
     # the command-line loop (bldfm run config.yaml): towers outer, steps inner, one single run each, runtime settings applied
     nruns += cli_runs(chk, cfg_cache, ref_cache)
     # a direction sweep (only wind_dir varies from step to step) and a series with repeated records, cache off
-    for kind, cfgs in (("sweep", make_config(2, 3, sweep=True)), ("repeated", make_config(2, 3, repeated_met=True))):
+    for kind, cfgs in (("sweep", make_config(2, 3, sweep=True)), ("repeated", make_config(2, 3, repeated_met=True)), ("no timestamps", make_config(2, 3, timestamps=False))):
         rtcfg.NUM_THREADS = 1
         refs_s = references(cfgs)
-        for strat in ("serial", "towers", "both"):
+        for strat in ("serial", "towers", "time", "both"):
             sc = {"kind": kind, "strategy": strat}
             chk.case(json.dumps([kind, strat]))
             res = run_bldfm_multitower(cfgs) if strat == "serial" else run_bldfm_parallel(cfgs, max_workers=2, parallel_over=strat)
